@@ -4,6 +4,7 @@ import (
 	"bytes"
 	"context"
 	"encoding/json"
+	"errors"
 	"fmt"
 	"io"
 	"net/http"
@@ -517,6 +518,19 @@ func (a *Application) executeTranslatedStreamingRequest(
 	}
 
 	// handle backend errors before starting sse stream
+	// headersReady also fires when the proxy goroutine ends without a single backend having
+	// answered (every candidate refused, reset, ...). The recorder still says 200 then and the
+	// pipe is empty: translating that would fabricate an empty, successful message. Report the
+	// proxy's error instead (the caller turns it into an Anthropic error object).
+	if !streamRecorder.started {
+		proxyErr := <-proxyErrChan
+		pipeReader.Close()
+		if proxyErr == nil {
+			proxyErr = errors.New("backend produced no response")
+		}
+		return fmt.Errorf("proxy request failed: %w", proxyErr)
+	}
+
 	if streamRecorder.status >= 400 {
 		a.handleStreamingBackendError(w, pipeReader, streamRecorder, proxyErrChan, pr, trans)
 		return nil
@@ -864,6 +878,10 @@ type streamingResponseRecorder struct {
 	headersReady chan struct{}
 	closeOnce    sync.Once
 	status       int
+	// started is set (before headersReady is closed) once a backend response has begun
+	// to arrive. When headersReady fires without it, the proxy gave up without any backend
+	// ever answering.
+	started bool
 }
 
 func newStreamingResponseRecorder(w io.Writer) *streamingResponseRecorder {
@@ -885,14 +903,24 @@ func (r *streamingResponseRecorder) ensureHeadersReady() {
 	r.closeOnce.Do(func() { close(r.headersReady) })
 }
 
+// markStarted records that a backend response has begun and releases the waiting handler.
+// started is written at most once, inside closeOnce and before the channel is closed, so the
+// handler can read it after <-headersReady without further synchronisation.
+func (r *streamingResponseRecorder) markStarted() {
+	r.closeOnce.Do(func() {
+		r.started = true
+		close(r.headersReady)
+	})
+}
+
 func (r *streamingResponseRecorder) Write(data []byte) (int, error) {
-	r.ensureHeadersReady()
+	r.markStarted()
 	return r.writer.Write(data)
 }
 
 func (r *streamingResponseRecorder) WriteHeader(statusCode int) {
 	r.status = statusCode // Capture status code to detect backend errors
-	r.ensureHeadersReady()
+	r.markStarted()
 	// Don't propagate the status write for streaming; just mark headers sent.
 }
 
